@@ -191,6 +191,42 @@ def run_manifest(w, acc, name, periods, ppk, mode, q, now, total):
             ts = rep.timescale
             d = rep.template.geti('duration')
             sn = rep.template.geti('startNumber', 1)
+            if rep.template.timeline and rep.uses_time():
+                # time addressing: every entry the Period lists is retrievable (init + "every segment ... is retrievable")
+                prev = None
+                t_first = rep.template.timeline[0][0]
+                for (t_, d_) in rep.template.timeline[:40]:
+                    if pdur is not None and Fraction(t_ - t_first, ts) >= pdur:
+                        break           # the Period ends before this entry starts: its duration does not admit it
+                    if mode == 'live':
+                        T = Fraction(int((now - doc.ast) / TD(microseconds=1)), 10 ** 6)
+                        if Fraction(t_ + d_, ts) > T:
+                            break           # not complete yet
+                    tr = w.get(mpd.split_url(rep.media_url(time=t_, number=sn)))
+                    acc.count('evaluations')
+                    acc.count('transitions')
+                    acc.state((tuple(brief(periods)), mode, crawl.iso(now), p.id, rep.id, 'time', t_))
+                    if tr.status != 200:
+                        durs = {sg['duration'] for sg in f['segs'][:-1]}
+                        layout = 'regular-durations' if len(durs) <= 1 else 'irregular-durations'
+                        bad(f'time-entry-not-served|{kind}|status={tr.status}|{layout}', f'{p.id}/{rep.id} $Time$={t_} (listed in the '
+                            f'SegmentTimeline of the Period) answered {tr.status}', rep=rep.id)
+                        prev = None
+                        continue
+                    acc.nontriv((tuple(brief(periods)), mode, p.id, rep.id, 'time', t_))
+                    try:
+                        fr = bmff.Fragment(tr.body, f['init'])
+                    except bmff.Malformed as e:
+                        bad(f'malformed|{kind}', f'{rep.id} $Time$={t_}: {e}', rep=rep.id)
+                        prev = None
+                        continue
+                    # (the statement speaks of segment numbers: how the served decode times relate to the listed times
+                    # is not demanded here, only counted)
+                    tf = fr.tfdt['base_media_decode_time'] if fr.tfdt else None
+                    if prev is not None and tf is not None and tf != prev:
+                        acc.outcome('time-addressed-run-not-gapless')
+                    prev = tf + fr.duration if (tf is not None and fr.duration is not None) else None
+                continue
             if not d or not rep.uses_number():
                 continue
             starts, tot = st.seg_starts(rep.id)
@@ -314,6 +350,9 @@ def run(ctx):
         if not ctx.quick:
             offs += [total - 0.000001, 2 * total + periods[0]['duration'] + 0.000001, 45.0]
         items.append((di, periods, 'live', {}, offs))
+        if not ctx.quick or di % 6 == 0:
+            items.append((di, periods, 'vod', {'timeline': '1'}, [0]))
+            items.append((di, periods, 'live', {'timeline': '1'}, offs[:2]))
         if not ctx.quick:
             items.append((di, periods, 'vod', {'drm': 'all'}, [0]))
     ctx.merge_all(ctx.pmap(execute, items, chunksize=2))
